@@ -80,6 +80,10 @@ BASES = {
     "cat3_x_cat2_x6": (S.schema2("cat3_x_cat2_x6", A3, B2), (1,), (None,), 2, 3, "rows"),
     "cat3_1d": (Schema("cat3_1d", [A3], [("cat", 0)], weighted=True), (1, 2), (None,), 3, 4, "strand"),
     "mr3_1d": (Schema("mr3_1d", [M3], [("mr", 0)]), (1,), (None,), 2, 3, "mrstrand"),
+    # categorical-date strands: smoothing is on by default there (window 2), on proportions and on a numeric mean
+    "date3_1d": (Schema("date3_1d", [S.cat("a", 3, "mid", date=True)], [("cat", 0)], weighted=True), (1, 2), (None,), 3, 4, "strand"),
+    "date3_1d_num": (Schema("date3_1d_num", [S.cat("a", 3, "mid", date=True)], [("cat", 0)],
+                            numeric={"measures": ["mean", "sum"], "valid_counts": True}), (1,), (None, 1, 3, 4.5), 3, 4, "strand"),
 }
 SCHEMAS = {k: v[0] for k, v in BASES.items()}
 PROFILES = {"quick": {k: v[0].profiles((1,), v[2]) for k, v in BASES.items()},
